@@ -14,6 +14,7 @@ import (
 	"io"
 	"regexp"
 	"sync"
+	"time"
 )
 
 type ctxKey struct{}
@@ -69,6 +70,8 @@ type fakeDB struct {
 	rowsOpened  int
 	rowsClosed  int
 	failKinds   map[string]bool // restrict call counting to these kinds (nil = all)
+	honourCtx   bool            // PrepareContext fails with ctx.Err() when the context ended while it was preparing
+	closeDelay  time.Duration   // Rows.Close takes this long before the result set counts as closed
 }
 
 var fakeDBs = struct {
@@ -176,6 +179,11 @@ func (c *fakeConn) PrepareContext(ctx context.Context, query string) (driver.Stm
 	c.db.mu.Unlock()
 	if err := c.db.step(event{Kind: "prepare", Conn: c.id, Stmt: id, SQL: query}, ctx); err != nil {
 		return nil, err
+	}
+	if c.db.honourCtx && ctx.Err() != nil {
+		// a driver that notices, while preparing, that the caller's context has ended
+		c.db.step(event{Kind: "prepare-aborted", Conn: c.id, Stmt: id, SQL: query}, ctx)
+		return nil, ctx.Err()
 	}
 	return &fakeStmt{conn: c, id: id, sql: query}, nil
 }
@@ -305,6 +313,9 @@ func (r *fakeRows) Columns() []string { return r.script.Cols }
 
 func (r *fakeRows) Close() error {
 	db := r.stmt.conn.db
+	if db.closeDelay > 0 {
+		time.Sleep(db.closeDelay)
+	}
 	db.mu.Lock()
 	if !r.closed {
 		db.openRows--
